@@ -23,7 +23,9 @@ SPEC = {
     "vk_url_parse_ipv4": {"max_n": 15, "min_n": 1}, "vk_agg_parse_ipv4": {"max_n": 10, "min_n": 1},
     "vk_url_parse_ipv6": {"max_n": 0}, "vk_agg_parse_ipv6": {"max_n": 0},
     "vk_to_lower_ascii": {"cap_is_n": True},
-    "vk_parse_state": {"skip": True}, "vk_set_limit": {"skip": True},
+    "vk_parse_state": {"skip": True}, "vk_set_limit": {"skip": True}, "vk_capi_get": {"state": True}, "vk_capi_owned": {"skip": True},
+    "vk_capi_failed_mutators": {"max_n": 6}, "vk_canon": {"p0": [0, 1, 2, 3, 4, 5, 6, 7], "p1": [0, 1, 4, 5], "max_n": 5},
+    "vk_char_class": {"p0": list(range(0, 256, 3))}, "vk_puny_verify": {"max_n": 3}, "vk_puny_decode": {"max_n": 3}, "vk_puny_encode": {"min_n": 4, "max_n": 8}, "vk_escape": {"p0": [0, 1], "max_n": 7}, "vk_ensure_tables": {"skip": True}, "vk_tables_published": {"skip": True}, "vk_tables_env_publish": {"skip": True},
 }
 _corpus_cache = {}
 _lock = threading.Lock()
@@ -215,7 +217,7 @@ def tv_unit(eng, u, cpath):
         decls.append(f"extern uint64_t {u.prefix}{r}(uint8_t*, uint64_t, uint8_t*, uint64_t, uint64_t, uint64_t);")
         ents.append('{"%s", %sF_%s, %s%s, %d, %d, %d, {%s}, %d, {%s}, %d, %d, %d}' % (
             r, u.prefix, r, u.prefix, r, sp.get("min_n", 0), sp.get("max_n", 48), len(p0), ",".join(str(x) + "ULL" for x in p0),
-            len(p1), ",".join(str(x) + "ULL" for x in p1), upto, 1 if sp.get("cap_is_n") else 0, 1 if r.startswith("vk_st_") else 0))
+            len(p1), ",".join(str(x) + "ULL" for x in p1), upto, 1 if sp.get("cap_is_n") else 0, 1 if (r.startswith("vk_st_") or sp.get("state")) else 0))
     src = os.path.join(eng.work, "tv_" + u.key() + ".c")
     with open(src, "w") as f:
         f.write(f'#include "{VERIF}/ll2c/ll2c_rt.h"\n#include "{c}"\n#include "{VERIF}/models/models.c"\n')
